@@ -1,0 +1,37 @@
+//go:build verif
+
+package pmtiles
+
+import (
+	"fmt"
+	"sync"
+)
+
+var verifTraceMu sync.Mutex
+var verifTraceSink func(string)
+
+// VerifSetTraceSink installs (or removes, with nil) a sink that receives one line per message the cache
+// event loop takes ("req"/"resp"), per eviction, and per value written to the directory-cache gauges
+// ("stat"), in the order the loop processes them.
+func VerifSetTraceSink(f func(string)) {
+	verifTraceMu.Lock()
+	verifTraceSink = f
+	verifTraceMu.Unlock()
+}
+
+func verifEmit(line string) {
+	verifTraceMu.Lock()
+	sink := verifTraceSink
+	verifTraceMu.Unlock()
+	if sink != nil {
+		sink(line)
+	}
+}
+
+func verifLoopEvent(kind string, key cacheKey, purge string) {
+	verifEmit(fmt.Sprintf("%s %s|%s|%d|%d|%s", kind, key.name, key.etag, key.offset, key.length, purge))
+}
+
+func verifCacheStat(name string, value int) {
+	verifEmit(fmt.Sprintf("stat %s %d", name, value))
+}
